@@ -1,4 +1,7 @@
 import AfqmcVerif.Lemmas.SingleDet
+import AfqmcVerif.Lemmas.AutoSpec
+import AfqmcVerif.Props.C01
+import Mathlib.LinearAlgebra.Matrix.Notation
 import Mathlib.Algebra.BigOperators.Field
 import Mathlib.Algebra.Polynomial.Inductions
 import Mathlib.Algebra.Polynomial.Eval.Coeff
@@ -137,5 +140,150 @@ theorem central_difference_quadratic (p : K[X]) :
       rw [this]
       ring
 
+
+/-- **GHF** (and any single determinant over spin orbitals): `ghf._calc_energy` is the code's uhf formula in the doubled
+space with an empty second block — exactly how the tie drives it.  With `m = 2·norb`, `H.ha = diag(h↑, h↓)`,
+`H.L γ = diag(L_γ, L_γ)` and the walker `diag(W↑, W↓)`, the Green's-function energy is the mixed estimator of the single
+bra `det(Cᴴ ·)`: one-body column replacements plus the `j ≠ l` double replacements, no cross term. -/
+theorem ghf_energy_is_mixed_estimator (H : Ham m g K) (C W : Matrix (Fin m) (Fin k) K)
+    (E : Matrix (Fin m) (Fin 0) K) (h : ovlp C W ≠ 0) :
+    uhfEnergy H C E W E
+      = H.h0 + obNumer (ovlp C) H.ha W / ovlp C W
+        + (∑ γ, tbNumer (ovlp C) (H.L γ) (H.L γ) W / ovlp C W) / 2 := by
+  have hE : ovlp E E = 1 := by unfold ovlp; exact Matrix.det_isEmpty
+  rw [uhf_energy_is_mixed_estimator H C E W E h (by rw [hE]; exact one_ne_zero)]
+  unfold specEnergy
+  have o0 : ∀ O : Matrix (Fin m) (Fin m) K, obNumer (ovlp E) O E = 0 := by
+    intro O; unfold obNumer; simp
+  have t0 : ∀ O : Matrix (Fin m) (Fin m) K, tbNumer (ovlp E) O O E = 0 := by
+    intro O; unfold tbNumer; simp
+  simp only [o0, t0, hE, mul_one, mul_zero, add_zero]
+
+/-! ## the AD / finite-difference kinds (`wave_function_auto`: multislater, CISD, UCISD, GCISD, CISD_THC)
+
+These classes define an overlap only — by C01 a linear combination of products of minors of the two walker blocks,
+`bra c ea eb` — and obtain the energy by differentiating it: the one-body part as the first derivative of
+`x ↦ ⟨ψ|(1 + x(h + v0))φ⟩` (`jvp`), the two-body part as the second derivative of `x ↦ ⟨ψ|(1 + xL + x²L²/2)φ⟩` (central
+difference), `v0 = −½ Σ_γ L_γ²`.  Both functions are polynomials in `x`; their low-order coefficients are computed in
+`Lemmas/ColumnExpand.lean`, `Lemmas/AutoBra.lean`, `Lemmas/AutoSpec.lean` for **every** such bra, every walker (singular
+sub-blocks included) and every dimension, using only the multilinearity of the determinant. -/
+section auto
+open AfqmcVerif.AutoBra AfqmcVerif.AutoSpec Finset Polynomial
+variable {ι : Type} [Fintype ι] (c : ι → K) (ea : ι → Fin ka → Fin m) (eb : ι → Fin kb → Fin m)
+
+/-- the mixed estimator of a general bra, with explicit column replacements -/
+noncomputable def specEnergy2 (H : Ham m g K) (G : Matrix (Fin m) (Fin ka) K → Matrix (Fin m) (Fin kb) K → K)
+    (Wa : Matrix (Fin m) (Fin ka) K) (Wb : Matrix (Fin m) (Fin kb) K) : K :=
+  H.h0 + ob2 G H.ha H.hb Wa Wb / G Wa Wb + (∑ γ, tb2 G (H.L γ) Wa Wb / G Wa Wb) / 2
+
+/-- for a product bra this is `specEnergy` (the spec of the single-determinant kinds) -/
+theorem specEnergy2_product (H : Ham m g K)
+    (Fa : Matrix (Fin m) (Fin ka) K → K) (Fb : Matrix (Fin m) (Fin kb) K → K)
+    (Wa : Matrix (Fin m) (Fin ka) K) (Wb : Matrix (Fin m) (Fin kb) K) :
+    specEnergy2 H (fun a b => Fa a * Fb b) Wa Wb = specEnergy H Fa Fb Wa Wb := by
+  unfold specEnergy2 specEnergy ob2 tb2 obNumer tbNumer
+  congr 2
+  · congr 1
+    rw [sum_mul, mul_sum]
+  · refine sum_congr rfl fun γ _ => ?_
+    congr 1
+    simp only [sum_mul, mul_sum]
+    congr 1
+    rw [sum_comm]
+
+
+/-- **one-body path** `x ↦ ⟨ψ|(1 + xO)φ⟩` (what `jvp` differentiates at `x = 0`; also the force-bias path with `O = L_γ`):
+a polynomial whose linear coefficient is `⟨ψ|Ô|φ⟩` -/
+theorem auto_one_body_path (Oa Ob : Matrix (Fin m) (Fin m) K)
+    (Wa : Matrix (Fin m) (Fin ka) K) (Wb : Matrix (Fin m) (Fin kb) K) :
+    ∃ Q : K[X], ∀ x : K,
+      bra c ea eb (Wa + x • (Oa * Wa)) (Wb + x • (Ob * Wb))
+        = bra c ea eb Wa Wb + x * ob2 (bra c ea eb) Oa Ob Wa Wb + x ^ 2 * Q.eval x := by
+  obtain ⟨Q, hQ⟩ := bra_expand c ea eb Wa (Oa * Wa) 0 Wb (Ob * Wb) 0
+  refine ⟨C (d2 c ea eb Wa (Oa * Wa) 0 Wb (Ob * Wb) 0) + X * Q, fun x => ?_⟩
+  have h := hQ x
+  simp only [smul_zero, add_zero] at h
+  rw [h]
+  unfold ob2 d1
+  simp only [repl_eq_rcw, eval_add, eval_mul, eval_C, eval_X]
+  ring
+
+/-- **two-body path** `x ↦ ⟨ψ|(1 + xL + x²L²/2)φ⟩` (what the central difference differentiates twice): a polynomial whose
+quadratic coefficient is half of `⟨ψ|(L̂)²|φ⟩ = ⟨ψ|(L²)^|φ⟩ + [j ≠ l replacements]` -/
+theorem auto_two_body_path (L : Matrix (Fin m) (Fin m) K)
+    (Wa : Matrix (Fin m) (Fin ka) K) (Wb : Matrix (Fin m) (Fin kb) K) (h2 : (2 : K) ≠ 0) :
+    ∃ Q : K[X], ∀ x : K,
+      bra c ea eb (Wa + x • (L * Wa) + x ^ 2 • ((2 : K)⁻¹ • (L * (L * Wa))))
+                  (Wb + x • (L * Wb) + x ^ 2 • ((2 : K)⁻¹ • (L * (L * Wb))))
+        = bra c ea eb Wa Wb + x * ob2 (bra c ea eb) L L Wa Wb
+          + x ^ 2 * ((ob2 (bra c ea eb) (L * L) (L * L) Wa Wb + tb2 (bra c ea eb) L Wa Wb) / 2)
+          + x ^ 3 * Q.eval x := by
+  obtain ⟨Q, hQ⟩ := bra_expand c ea eb Wa (L * Wa) ((2 : K)⁻¹ • (L * (L * Wa))) Wb (L * Wb) ((2 : K)⁻¹ • (L * (L * Wb)))
+  refine ⟨Q, fun x => ?_⟩
+  rw [hQ x]
+  have e1 : d1 c ea eb Wa (L * Wa) Wb (L * Wb) = ob2 (bra c ea eb) L L Wa Wb := by
+    unfold d1 ob2; simp only [repl_eq_rcw]
+  have e2 : d2 c ea eb Wa (L * Wa) ((2 : K)⁻¹ • (L * (L * Wa))) Wb (L * Wb) ((2 : K)⁻¹ • (L * (L * Wb)))
+      = (ob2 (bra c ea eb) (L * L) (L * L) Wa Wb + tb2 (bra c ea eb) L Wa Wb) / 2 := by
+    unfold d2 ob2 tb2
+    simp only [repl_eq_rcw, repl2_eq_rcw, bra_rcw_smul_a, bra_rcw_smul_b, sum_add_distrib, Matrix.mul_assoc]
+    rw [sum_offdiag_eq_two_sumBelow (fun j l => bra c ea eb (rcw (rcw Wa (L * Wa) j) (L * Wa) l) Wb)
+          (fun j l h => by rw [rcw_comm _ _ j l h]),
+      sum_offdiag_eq_two_sumBelow (fun j l => bra c ea eb Wa (rcw (rcw Wb (L * Wb) j) (L * Wb) l))
+          (fun j l h => by rw [rcw_comm _ _ j l h])]
+    simp only [← mul_sum]
+    field_simp
+    ring
+  rw [e1, e2]
+
+
+/-- `normal_ordering_term`: `v0 = −½ Σ_γ L_γ²` -/
+def v0 (H : Ham m g K) : Matrix (Fin m) (Fin m) K := (-(2 : K)⁻¹) • ∑ γ, H.L γ * H.L γ
+
+/-- the value `wave_function_auto._calc_energy` computes when its derivatives are exact: `h0 + (dx1 + Σ_γ d²_γ / 2) / overlap`
+with `dx1` the linear coefficient of the one-body path along `h + v0` (`auto_one_body_path`) and `d²_γ` twice the quadratic
+coefficient of the two-body path along `L_γ` (`auto_two_body_path`); the central difference with step `ε` differs from `d²_γ`
+by `ε²·q(ε)` (`central_difference_quadratic`) -/
+noncomputable def autoEnergy (H : Ham m g K) (G : Matrix (Fin m) (Fin ka) K → Matrix (Fin m) (Fin kb) K → K)
+    (Wa : Matrix (Fin m) (Fin ka) K) (Wb : Matrix (Fin m) (Fin kb) K) : K :=
+  H.h0 + (ob2 G (H.ha + v0 H) (H.hb + v0 H) Wa Wb
+          + (∑ γ, (ob2 G (H.L γ * H.L γ) (H.L γ * H.L γ) Wa Wb + tb2 G (H.L γ) Wa Wb)) / 2) / G Wa Wb
+
+/-- **the AD / finite-difference energy is the mixed estimator, for every bra that is a combination of products of minors**
+(all trial kinds), every walker, every Hamiltonian, every dimension: the `(L²)^` pieces produced by the second derivative
+are cancelled exactly by the normal-ordering shift `v0` of the one-body path -/
+theorem auto_energy_is_mixed_estimator (H : Ham m g K)
+    (Wa : Matrix (Fin m) (Fin ka) K) (Wb : Matrix (Fin m) (Fin kb) K) (h2 : (2 : K) ≠ 0) :
+    autoEnergy H (bra c ea eb) Wa Wb = specEnergy2 H (bra c ea eb) Wa Wb := by
+  unfold autoEnergy specEnergy2
+  rw [ob2_add, v0, ob2_smul, ob2_sum, sum_add_distrib]
+  rw [← sum_div]
+  field_simp
+  ring
+
+/-- **the two routes agree on a single determinant**: feeding the uhf overlap (as a bra) to the AD / finite-difference energy
+formula gives the Green's-function energy `uhf._calc_energy` — both equal the mixed estimator -/
+theorem auto_energy_eq_uhf_energy (H : Ham m g K)
+    (Ca : Matrix (Fin m) (Fin ka) K) (Cb : Matrix (Fin m) (Fin kb) K)
+    (Wa : Matrix (Fin m) (Fin ka) K) (Wb : Matrix (Fin m) (Fin kb) K)
+    (ha : ovlp Ca Wa ≠ 0) (hb : ovlp Cb Wb ≠ 0) (h2 : (2 : K) ≠ 0) :
+    autoEnergy H (bra (ι := (Fin ka ↪o Fin m) × (Fin kb ↪o Fin m))
+          (fun p => star ((Ca.submatrix p.1 id).det) * star ((Cb.submatrix p.2 id).det))
+          (fun p => p.1) (fun p => p.2)) Wa Wb
+      = uhfEnergy H Ca Cb Wa Wb := by
+  rw [auto_energy_is_mixed_estimator _ _ _ H Wa Wb h2, uhf_energy_is_mixed_estimator H Ca Cb Wa Wb ha hb,
+    ← specEnergy2_product]
+  have hf : (bra (ι := (Fin ka ↪o Fin m) × (Fin kb ↪o Fin m))
+          (fun p => star ((Ca.submatrix p.1 id).det) * star ((Cb.submatrix p.2 id).det))
+          (fun p => p.1) (fun p => p.2)) = fun a b => ovlp Ca a * ovlp Cb b := by
+    funext a b
+    rw [← AfqmcVerif.Props.C01.uhf_overlap_is_bra]; rfl
+  rw [hf]
+
+/-- non-vacuity: a two-term bra on a 2-orbital, (1,1)-electron walker, one-body path evaluated at a concrete point -/
+example : bra (m := 2) (ka := 1) (kb := 1) (fun _ : Fin 2 => (1 : ℚ)) (fun i _ => i) (fun i _ => i) !![1; 2] !![3; 4] = 11 := by
+  simp [bra, Fin.sum_univ_two, Matrix.det_unique]; norm_num
+
+end auto
 
 end AfqmcVerif.Props.C02
